@@ -634,12 +634,17 @@ func (r *reader) read(src []byte) {
 			} else {
 				obj = String(src[r.tokenStart:r.pos])
 			}
+			r.mode = valueMode
 			if 0 < len(r.stack) {
 				r.stack = append(r.stack, obj)
 			} else {
 				r.code = append(r.code, obj)
+				if r.one {
+					// The closing delimiter is part of the form.
+					r.pos++
+					return
+				}
 			}
-			r.mode = valueMode
 		case pipeDone:
 			var obj Object
 			if 0 < len(r.buf) {
@@ -647,12 +652,17 @@ func (r *reader) read(src []byte) {
 			} else {
 				obj = Symbol(src[r.tokenStart:r.pos])
 			}
+			r.mode = valueMode
 			if 0 < len(r.stack) {
 				r.stack = append(r.stack, obj)
 			} else {
 				r.code = append(r.code, obj)
+				if r.one {
+					// The closing delimiter is part of the form.
+					r.pos++
+					return
+				}
 			}
-			r.mode = valueMode
 
 		case escByte:
 			if len(r.buf) == 0 && r.tokenStart < r.pos {
